@@ -178,6 +178,9 @@ func VH_C05_L5_update() {
 	zzverif.Assert(!zzverif.WroteInto(p.context, 0, cap(p.context)) && !zzverif.WroteInto(sib.context, 0, cap(sib.context)), "UpdateContext after With() writes only into the child's own buffer")
 	zzverif.TrackWrites(false)
 	zzverif.Assert(zzverif.EqualBytes(p.context, before) && zzverif.EqualBytes(sib.context, sibBefore), "UpdateContext: parent and sibling unchanged")
+	// the update itself took effect, whatever the logger's level is at that moment (a logger can
+	// be re-enabled further down the chain): the child's context is the old one plus the new fields
+	zzverif.Assert(len(child.context) > len(before) && zzverif.ContainsBytes(child.context, []byte(`"n":2`)), "UpdateContext appends the new fields to the logger's own context, at every level")
 	zzverif.Reach("C05/L5")
 }
 
